@@ -90,7 +90,7 @@ def _leaf_ok(kind, x, e, scale=None):
         sign, num, den = e
         if _is_any(num) or _is_any(den):
             return True
-        want2 = fq_value(num, den)
+        want2 = fq_t2(num, den)
         if math.isnan(want2) or want2 < 0:
             return isinstance(x, float) and math.isnan(x)
         if not isinstance(x, (int, float)) or (isinstance(x, float) and math.isnan(x)):
@@ -105,7 +105,7 @@ def _leaf_ok(kind, x, e, scale=None):
         (sign, num, den), (dfn, dfd) = e
         if _is_any(num) or _is_any(den):
             return True
-        want = t_tail(fq_value(num, den), fq_value(dfn, dfd))
+        want = t_tail(fq_t2(num, den), fq_value(dfn, dfd))
         if math.isnan(want):
             return isinstance(x, float) and math.isnan(x)
         if not isinstance(x, (int, float)) or (isinstance(x, float) and math.isnan(x)):
@@ -144,6 +144,15 @@ def _shape(x):
         return list(np.shape(x))
     except Exception:
         return "?"
+
+
+def fq_t2(num, den):
+    """t^2 = num / den where den is a variance estimate: the statistic is d / sqrt(den), so it
+    is undefined (NaN) for a negative den even when d = 0"""
+    n, d = den
+    if d != 0 and n < 0:
+        return float("nan")
+    return fq_value(num, den)
 
 
 def fq_value(num, den):
@@ -208,7 +217,7 @@ def compare(observed, expected):
                     if c["self"]:
                         continue
                     sign, num, den = c["t"]
-                    p = t_tail(fq_value(num, den), fq_value(c["df"][0], c["df"][1]))
+                    p = t_tail(fq_t2(num, den), fq_value(c["df"][0], c["df"][1]))
                     if math.isnan(p) or (only_larger and not sign < 0):
                         continue
                     if abs(p - alpha) <= 1e-9:
